@@ -161,7 +161,7 @@ def run(tier, seed):
         """the same chains over COMPOSITE return types (Option/Result/Vec/Poll/tuples with owned leaves next to borrowed parts): the k-th
         request through returns / each_call / n_times(1|2|3) / at_least_times(1) yields the configured value or the single-use refusal"""
         from . import C12
-        n, ntypes, bad = C12.composite_part(rng, tier_, crate="outputs02", limit=45 if tier_ == "quick" else 200)
+        n, ntypes, bad = C12.composite_part(rng, tier_, crate="outputs02", limit=90 if tier_ == "quick" else 300)
         cov = {"composite_part": {"evaluations": n, "types": ntypes, "rule": composite.__doc__}}
         if not bad:
             return n, None, cov
